@@ -29,6 +29,98 @@ CHECKS = {
         note="Trusted: Coq kernel + vm_compute; harness as test equipment; Apache Thrift readers assumed graceful (exercised only); messages < 2^31 bytes.",
         technique="Coq totality proofs over a Go-partiality model + vm_compute trace-validation judge on all receiving entry points",
         design="5/C05"),
+    "C08": dict(
+        text="Coq theorems (no axioms) over an executable model of the four generators' topic code: the parser's prefix-variable scan, "
+             "strings.Title, the emitted op/prefix/topic statements and their evaluation under each target language's rules for string "
+             "literals, format calls / interpolation and scoping. For all scope names, operation names, prefixes with 0..n variables, "
+             "delimiters and arbitrary runtime values, under explicit decidable side conditions, every publisher and subscriber of Go, "
+             "Java, Dart and Python computes exactly prefix[vars:=values]+delim+Title(scope)+delim+op; publisher and subscriber agree "
+             "whenever both evaluate, with no side condition. The pinned defects and the remaining Dart defect are proved as _refuted "
+             "witnesses. Tied to the code on every run: the real compiler emits all six outputs, the judge checks the emitted statement "
+             "text and the evaluated strings (Go's fmt and the compiled generated Go capturing the topic at the transport, javac + "
+             "String.format, python3, a Dart interpolation evaluator).",
+        note="Trusted: Coq kernel + vm_compute; harness/evaluators as test equipment (no Dart SDK offline). Not modelled: reserved words as "
+             "variable names, escape sequences, format verbs other than %s/%%. One known finding (Dart $var followed by an identifier-like delimiter).",
+        technique="Coq generator+evaluator model, induction over prefix segments, trace validation against compiler output and compiled generated code",
+        design="5/C08"),
+    "C11": dict(
+        text="Partial proof: Coq theorems over all inputs: after validation (incl. the new circular-typedef check) every typedef chain of a "
+             "file and its includes resolves within |typedefs|+|files| steps; IsStruct and the Go wire-type classification cannot hit a nil "
+             "dereference or unbounded recursion on validated programs (fully total for single files); every identifier-casing helper returns "
+             "on every grammar identifier; -gen parsing is total and rejects unknown options. Refutation theorems record what was false of the "
+             "pinned code (F10, F11, F15) and what is still false (names of an include's include), with witnesses replayed on the real compiler. "
+             "Well-formedness of the eight generators' output and the diagnostic behaviour of the binary on invalid/mutated/arbitrary text are "
+             "explored on seeded programs, not proved.",
+        note="Model tied to the code by pointwise correspondence every run (helpers reached through compiler/**/verif_c11.go, vm_compute judge on "
+             "parser-produced ASTs). ASCII only; marking loop modelled as |typedefs| passes; parser termination belongs to C10. Java syntax only, Dart "
+             "bracket/quote balance only, Go full type-check against the runtime. 12 unrepaired generator defects listed in known_findings.json.",
+        technique="Coq totality/termination proofs + judge-checked correspondence + seeded compiler exploration with toolchain well-formedness checks",
+        design="5/C11"),
+    "C12": dict(
+        text="16 Coq theorems (axiom-free) over an executable model of the bounded output buffer, the client prepare/Call/Oneway/Publish paths, "
+             "the NATS/HTTP/STOMP transport and server size checks and the RESPONSE_TOO_LARGE reply path: rejection iff framed size > limit for "
+             "every sequence of transport writes, every limit and every transport/publisher; nothing is transmitted iff rejected; a response over "
+             "the server or client limit gives RESPONSE_TOO_LARGE, never a timeout (partial: the op-id-only error reply must itself fit 1 MiB); "
+             "every call of a session is judged on its own. Tied to the code on every run by trace validation of real executions through the real "
+             "client, embedded nats-server, httptest and go-stomp at limit +-2 bytes, plus a direct oracle.",
+        note="Trusted: Coq kernel + vm_compute; harness as test equipment. Messages abstracted to write sizes; TBinary modelled value->writes, compact/JSON "
+             "writes taken from a recording transport; Thrift decoding, brokers, net/http, nats.go, go-stomp not modelled; NATS max_payload >= 1 MiB assumed.",
+        technique="Coq model + induction over write sequences; trace-validation judge; boundary-directed generation through real transports",
+        design="5/C12"),
+    "C15": dict(
+        text="17 Coq theorems over an interleaving small-step model of the adapter transport lifecycle, the framing layer and the monitor runner, "
+             "for all histories, schedules and policies: exactly one cause per connection generation; every failure point closes the transport with "
+             "its classified cause; no call or read loop ever blocks; ALREADY_OPEN/NOT_OPEN consistent; generations independent; attempts and waits "
+             "bounded; every close delivered to a live monitor in order; reopen always re-enabled. The pinned code is refuted by witnesses; two "
+             "left-in defects are refuted theorems with known findings. Tie: step-by-step trace validation of the real fAdapterTransport and monitor "
+             "runner (goroutines parked at verif yield hooks) by the Coq judge, plus a direct oracle.",
+        note="Trusted: Coq kernel + vm_compute; scripted TTransport harness; close() atomic against the loop's token check; Go mutex/channel semantics; one "
+             "monitor set before the first Open. Not modelled: Request/Oneway write and flush failures. Known findings: first reopen wait not capped by "
+             "MaxWait; EOF inside a frame reported as a clean close.",
+        technique="interleaving small-step model + invariants, trace-validation judge, scheduled harness with yield hooks, direct oracle",
+        design="5/C15"),
+    "C17": dict(
+        text="Coq theorems over an explicit heap model of FContext (every map at its own address, so aliasing is expressible): separation of all "
+             "map slots in every reachable state (contexts, clones, maps handed out by getters, protocol objects), frame property of every "
+             "operation, key-uniqueness of every map, consecutive op ids from the atomic counter (distinct below 2^64 issues). Tied to context.go / "
+             "protocol.go by replaying seeded operation sequences on real FContexts and comparing ALL maps of ALL contexts after EVERY operation "
+             "inside Coq; a concurrent stress run supports the atomicity assumption.",
+        note="Trusted: Coq kernel + vm_compute; harness as test equipment; atomic.AddUint64 and sync.RWMutex assumed (each FContext method = one atomic model "
+             "step; Clone is three critical sections in Go, one step in the model).",
+        technique="Coq heap model + invariants by induction over operation sequences + vm_compute trace-validation judge",
+        design="5/C17"),
+    "C18": dict(
+        text="Coq theorems over a function-by-function Gallina model of compiler/parser/audit.go: for every pair of parsed programs the audit fails iff "
+             "the declarative catalogue Breaking holds (unconditional when typedefs are acyclic); identical programs and the documented compatible "
+             "edits pass; a retyped field, argument, return type or operation is found at any position, depth and typedef/include chain. Tied to the "
+             "code every run: the judge replays each generated pair and compares the exact multiset of ERROR/WARNING messages and the verdict; an "
+             "oracle derived from the edit labels; the exit status of frugal -audit.",
+        note="Trusted: Coq kernel + vm_compute; harness vh_c18 and generators as test equipment (value rendering assumed equal iff reflect.DeepEqual). Parser "
+             "outside the model; cyclic typedefs excluded (C11); passing theorems assume distinct names per declaration kind; types compared by name.",
+        technique="Gallina model, declarative-catalogue equivalence proof, trace-validation judge, label oracle",
+        design="5/C18"),
+    "C19": dict(
+        text="Partial proof: Coq theorems that every map-iteration site of compiler/** reachable from code generation (list REGENERATED from the source "
+             "by go/types on every run) follows a schema whose result is the same for every iteration order; that the generation plan / json "
+             "collection order do not depend on map layout; that output directories and the Python __init__ chain do not depend on absolute "
+             "locations; that every Compile starts from fresh globals (Reset completeness read off the source). Byte equality of generated text "
+             "across repetitions, working directories, source roots and -out directories is established by exploration (sha256 of all emitted "
+             "files), and the model is tied to the real parser/compiler by a Coq judge on observed orders, dirs and globals.",
+        note="Trusted: translator/mapsites.go (go/types classification, conservative call graph), the list trusted_sorted_libs (encoding/json, yaml.v2, templates "
+             "iterate maps sorted), goimports, harness as test equipment. Not modelled: the text generators themselves.",
+        technique="Coq model + regenerated map-site table + trace-validation judge + repeated/relocated compilation hashing",
+        design="5/C19"),
+    "C20": dict(
+        text="13 Coq theorems (no axioms) over an interleaving model of fNatsServer plus the nats.go client and broker routing, for every number of "
+             "subjects, worker count >= 1, queue length >= 0, burst and position of Stop, on every schedule: conservation; final state when Serve "
+             "returns (every accepted request with a reply subject processed exactly once, reply published iff output); nothing accepted after Stop "
+             "returned; close(workC) never races a handler; progress (a step is always enabled until both returned; every step decreases a measure; "
+             "every maximal schedule ends with both returned). Tie: trace inclusion of real executions against an embedded nats-server by a Coq judge "
+             "that only applies the model's step, plus a direct oracle.",
+        note="Trusted: Coq kernel + vm_compute; nats.go v1.33.1 / nats-server v2.10.11 behaviour as written into the model's guards (validated per run, not proved); "
+             "Go channel semantics; healthy connection; one Stop call; frames >= 4 bytes (C05).",
+        technique="interleaving small-step model, inductive invariants, termination measure, trace-inclusion judge with hidden steps",
+        design="5/C20"),
 }
 
 NOT_YET = "check not built yet in this round; design in DESIGN.md section 5"
